@@ -50,6 +50,11 @@ func runC05(r *Run) {
 	if r.NumViolations() == 0 {
 		c05SlowHandler(r)
 	}
+	if r.NumViolations() == 0 {
+		hooks.Reset(true)
+		c05IdsAfterReadFailure(r)
+		hooks.Reset(false)
+	}
 	// the per-call order of envelopes also holds for calls relayed by a proxy (c02c.go)
 	if r.NumViolations() == 0 {
 		c02ViaProxy(r)
